@@ -18,6 +18,7 @@ import (
 	"reflect"
 	"strings"
 	"sync"
+	"syscall"
 
 	"github.com/miscreant/miscreant.go"
 
@@ -108,6 +109,39 @@ func parseVals(s string) []val {
 	}
 	return list(false)
 }
+// rawVal returns the text of the i-th top-level value of a case field
+func rawVal(s string, i int) string {
+	depth, start, k := 0, -1, 0
+	for pos := 0; pos <= len(s); pos++ {
+		end := pos == len(s)
+		if !end && s[pos] == '[' {
+			if depth == 0 && start < 0 {
+				start = pos
+			}
+			depth++
+			continue
+		}
+		if !end && s[pos] == ']' {
+			depth--
+			continue
+		}
+		if end || (s[pos] == ' ' && depth == 0) {
+			if start >= 0 {
+				if k == i {
+					return s[start:pos]
+				}
+				k++
+				start = -1
+			}
+			continue
+		}
+		if depth == 0 && start < 0 {
+			start = pos
+		}
+	}
+	return "[]"
+}
+
 func (v val) B() []byte { return lib.ParseB(v.tok) }
 func (v val) I() int64  { return lib.ParseI(v.tok) }
 func (v val) BL() [][]byte {
@@ -323,28 +357,63 @@ func layout(uid []byte, cookies, phs [][]byte) (fields []field, pos int, ok bool
 	return fields, pos, true
 }
 
-// encodeCase runs EncodePacket on the given parts and records the case; it
-// returns the encoder's output and the position of the authenticator.
-func encodeCase(tags string, hdr, uid []byte, cookies, phs [][]byte, key, pt, rnd []byte, bigCap bool) (out []byte, fields []field, pos int, ct []byte) {
+// encodeCase runs EncodePacket on the given parts, hands the result to the real
+// receiver (DecodePacket + ProcessRequest under the same key) and records the
+// case; it returns the encoder's output and the position of the authenticator.
+// ptkind: 0 = no plaintext, 1 = plaintext made by NewResponsePacket from cookies of
+// one length (a multiple of 4), 2 = anything else.  src: "" or the input of
+// NewRequestPacket (one list: the cookie pool) / NewResponsePacket (cookies and
+// identifier) whose output the parts are.
+func encodeCase(tags string, hdr, uid []byte, cookies, phs [][]byte, key, pt, rnd []byte, bigCap bool, ptkind int, src string) (out []byte, fields []field, pos int, ct []byte) {
 	out, panicked := goEncode(hdr, mkPacket(uid, cookies, phs, key, pt), rnd, bigCap)
-	var ent string
+	var ent, oent string
 	var ok bool
 	fields, pos, ok = layout(uid, cookies, phs)
 	if !panicked && ok && len(hdr) == 48 && pos <= len(out) {
 		ent, ct = sealEntry(key, rnd, out[:pos], false, pt)
 	}
 	code := int64(0)
+	acc := int64(-1)
 	if panicked {
 		code = 100
+	} else {
+		acc = 0
+		func() {
+			defer func() { recover() }()
+			var pkt nts.Packet
+			if nts.DecodePacket(&pkt, out) != nil {
+				return
+			}
+			ap := authPos(&pkt)
+			if keyOK(key) && len(pkt.Auth.Nonce) == 16 && ap <= len(out) {
+				oent = openEntry(key, pkt.Auth.Nonce, out[:ap], false, pkt.Auth.CipherText)
+			}
+			if nts.ProcessRequest(out, key, &pkt) == nil {
+				acc = 1
+			}
+		}()
+	}
+	if src == "" {
+		src = "[]"
 	}
 	w.Case("nts.encode", tags,
-		lib.V(lib.B(hdr), lib.B(uid), BL(cookies), BL(phs), lib.B(key), lib.B(pt), lib.B(rnd), tab(ent)),
-		lib.V(lib.I(code), lib.B(out)))
+		lib.V(lib.B(hdr), lib.B(uid), BL(cookies), BL(phs), lib.B(key), lib.B(pt), lib.B(rnd), tab(ent, oent), lib.I(int64(ptkind)), src),
+		lib.V(lib.I(code), lib.B(out), lib.I(acc)))
 	if !panicked && ok {
 		al := len(out) - pos
 		fields = append(fields, field{off: pos, length: al, typ: 0x404})
 	}
 	return out, fields, pos, ct
+}
+
+// sameShape: all cookies of one length, a multiple of 4
+func sameShape(cs [][]byte) bool {
+	for _, c := range cs {
+		if len(c) != len(cs[0]) || len(c)%4 != 0 {
+			return false
+		}
+	}
+	return len(cs) > 0
 }
 
 // ---- sessions: keys, cookies, exchanges, all through the project's code ----
@@ -380,9 +449,35 @@ func cookieSealCase(tags string, algo uint16, s2c, c2s, master []byte, keyid int
 		cb = ec.Encode()
 	}
 	ent, _ := sealEntry(master, rnd, nil, true, sc.Encode())
+	// the sealed cookie opened again with the key that sealed it
+	ocode, oent := int64(-1), ""
+	var res ntske.ServerCookie
+	if err == nil {
+		func() {
+			defer func() {
+				if recover() != nil {
+					ocode = 100
+				}
+			}()
+			var ec2 ntske.EncryptedServerCookie
+			if e := ec2.Decode(cb); e != nil {
+				ocode = int64(classify(e))
+				return
+			}
+			if keyOK(master) && len(ec2.Nonce) == 16 {
+				oent = openEntry(master, ec2.Nonce, nil, true, ec2.Ciphertext)
+			}
+			var e error
+			res, e = ec2.Decrypt(master)
+			ocode = int64(classify(e))
+		}()
+		if ocode != 0 {
+			res = ntske.ServerCookie{}
+		}
+	}
 	w.Case("ck.seal", tags,
-		lib.V(lib.I(int64(algo)), lib.B(s2c), lib.B(c2s), lib.B(master), lib.I(int64(keyid)), lib.B(rnd), tab(ent)),
-		lib.V(lib.I(int64(classify(err))), lib.B(cb)))
+		lib.V(lib.I(int64(algo)), lib.B(s2c), lib.B(c2s), lib.B(master), lib.I(int64(keyid)), lib.B(rnd), tab(ent, oent)),
+		lib.V(lib.I(int64(classify(err))), lib.B(cb), lib.I(ocode), lib.I(int64(res.Algo)), lib.B(res.S2C), lib.B(res.C2S)))
 	return cb
 }
 
@@ -431,12 +526,12 @@ func (s *session) request(r *lib.Rng) *honest {
 	for _, c := range pkt.CookiePlaceholders {
 		phs = append(phs, c.Cookie)
 	}
-	w.Case("nts.newreq", "", lib.V(BL(s.pool)), lib.V(lib.I(0), BL(cs), BL(phs)))
+	src := lib.L(BL(s.pool))
 	if len(s.pool) > 1 {
 		s.pool = s.pool[1:]
 	}
 	nonce := r.Bytes(16)
-	out, fields, pos, ct := encodeCase("honest", genHdr(r), id, cs, phs, pkt.Auth.Key, pkt.Auth.PlainText, nonce, r.Intn(3) == 0)
+	out, fields, pos, ct := encodeCase("honest,newreq", genHdr(r), id, cs, phs, pkt.Auth.Key, pkt.Auth.PlainText, nonce, r.Intn(3) == 0, 0, src)
 	return &honest{b: out, pos: pos, nonce: nonce, ct: ct, key: s.c2s, dir: 0, uid: id, fields: fields}
 }
 
@@ -447,9 +542,12 @@ func (s *session) response(r *lib.Rng, uid []byte, ncookies int) *honest {
 		cookies = append(cookies, s.freshCookie(r))
 	}
 	pkt := nts.NewResponsePacket(cookies, s.s2c, uid)
-	w.Case("nts.newresp", "", lib.V(BL(cookies), lib.B(uid)), lib.V(lib.I(0), lib.B(pkt.Auth.PlainText)))
 	nonce := r.Bytes(16)
-	out, fields, pos, ct := encodeCase("honest", genHdr(r), pkt.UniqueID.ID, nil, nil, pkt.Auth.Key, pkt.Auth.PlainText, nonce, r.Intn(3) == 0)
+	pk := 2
+	if sameShape(cookies) {
+		pk = 1
+	}
+	out, fields, pos, ct := encodeCase("honest,newresp", genHdr(r), pkt.UniqueID.ID, nil, nil, pkt.Auth.Key, pkt.Auth.PlainText, nonce, r.Intn(3) == 0, pk, lib.L(BL(cookies), lib.B(uid)))
 	return &honest{b: out, pos: pos, nonce: nonce, ct: ct, key: s.s2c, dir: 1, uid: uid, pt: pkt.Auth.PlainText, fields: fields}
 }
 
@@ -654,10 +752,93 @@ func cookieTLV(tags string, cb []byte) {
 		code = classify(ec.Decode(cb))
 	}()
 	if code != 0 {
-		w.Case("ck.tlv", tags, lib.B(cb), lib.V(lib.I(int64(code)), "0", "x", "x", "x"))
+		w.Case("ck.tlv", tags, lib.V("0", lib.B(cb)), lib.V(lib.I(int64(code)), "0", "x", "x", "x", "0"))
 		return
 	}
-	w.Case("ck.tlv", tags, lib.B(cb), lib.V("0", lib.I(int64(ec.ID)), lib.B(ec.Nonce), lib.B(ec.Ciphertext), lib.B(ec.Encode())))
+	// decoding what it re-encodes must give the same cookie
+	re := ec.Encode()
+	var ec2 ntske.EncryptedServerCookie
+	same := ec2.Decode(re) == nil && ec2.ID == ec.ID && bytes.Equal(ec2.Nonce, ec.Nonce) && bytes.Equal(ec2.Ciphertext, ec.Ciphertext)
+	w.Case("ck.tlv", tags, lib.V("0", lib.B(cb)), lib.V("0", lib.I(int64(ec.ID)), lib.B(ec.Nonce), lib.B(ec.Ciphertext), lib.B(re), lib.Bool(same)))
+}
+
+// plainTLV: ServerCookie.Decode (the decrypted cookie) alone
+func plainTLV(tags string, b []byte) {
+	var sc ntske.ServerCookie
+	code := 0
+	func() {
+		defer func() {
+			if r := recover(); r != nil {
+				code = 100
+			}
+		}()
+		code = classify(sc.Decode(b))
+	}()
+	if code != 0 {
+		w.Case("ck.tlv", tags, lib.V("1", lib.B(b)), lib.V(lib.I(int64(code)), "0", "x", "x", "x", "0"))
+		return
+	}
+	re := sc.Encode()
+	var sc2 ntske.ServerCookie
+	same := sc2.Decode(re) == nil && sc2.Algo == sc.Algo && bytes.Equal(sc2.S2C, sc.S2C) && bytes.Equal(sc2.C2S, sc.C2S)
+	w.Case("ck.tlv", tags, lib.V("1", lib.B(b)), lib.V("0", lib.I(int64(sc.Algo)), lib.B(sc.S2C), lib.B(sc.C2S), lib.B(re), lib.Bool(same)))
+}
+
+// plainFuzz: the plaintext decoder on encodings of real server cookies, every
+// bit and truncation of one, missing / doubled / unknown TLVs, and random TLV strings
+func plainFuzz(r *lib.Rng, n int) {
+	sc := ntske.ServerCookie{Algo: 15, S2C: r.Bytes(32), C2S: r.Bytes(32)}
+	good := sc.Encode()
+	plainTLV("honest", good)
+	for i := 0; i < len(good)*8; i++ {
+		c := clone(good)
+		c[i/8] ^= 1 << (i % 8)
+		plainTLV("mut,bit", c)
+	}
+	for i := 0; i <= len(good); i++ {
+		plainTLV("mut,trunc", clone(good[:i]))
+	}
+	tlv := func(t uint16, v []byte) []byte {
+		b := make([]byte, 4, 4+len(v))
+		binary.BigEndian.PutUint16(b, t)
+		binary.BigEndian.PutUint16(b[2:], uint16(len(v)))
+		return append(b, v...)
+	}
+	al, s2, c2 := tlv(0x101, []byte{0, 15}), tlv(0x201, sc.S2C), tlv(0x301, sc.C2S)
+	cat := func(xs ...[]byte) []byte { return bytes.Join(xs, nil) }
+	for _, b := range [][]byte{cat(al, s2), cat(al, c2), cat(s2, c2), cat(al), cat(), cat(c2, s2, al), cat(al, s2, c2, al), cat(al, s2, c2, s2),
+		cat(al, s2, c2, tlv(0x777, r.Bytes(5))), cat(tlv(0x777, nil), al, s2, c2), cat(al, s2, c2, []byte{0}), cat(al, s2, c2, []byte{0, 0, 0}),
+		cat(al, s2, c2, []byte{7, 7, 0, 9}), cat(tlv(0x101, []byte{15}), s2, c2), cat(tlv(0x101, nil), s2, c2), cat(tlv(0x101, []byte{0, 15, 9}), s2, c2),
+		cat(al, tlv(0x201, nil), tlv(0x301, nil)), cat(al, s2, tlv(0x301, r.Bytes(64)))} {
+		plainTLV("mut,struct", b)
+	}
+	types := []uint16{0x101, 0x201, 0x301, 0x401, 0x777, 0}
+	for i := 0; i < n; i++ {
+		var b []byte
+		k := r.Intn(6)
+		for j := 0; j < k; j++ {
+			l := r.Intn(20)
+			if r.Intn(5) == 0 {
+				l = r.Intn(3)
+			}
+			var hdr [4]byte
+			binary.BigEndian.PutUint16(hdr[:], lib.Pick(r, types...))
+			dl := l
+			if r.Intn(6) == 0 {
+				dl = l + r.Intn(5) - 2
+				if dl < 0 {
+					dl = 0
+				}
+			}
+			binary.BigEndian.PutUint16(hdr[2:], uint16(dl))
+			b = append(b, hdr[:]...)
+			b = append(b, r.Bytes(l)...)
+		}
+		if r.Intn(8) == 0 {
+			b = append(b, r.Bytes(r.Intn(4))...)
+		}
+		plainTLV("fuzz", b)
+	}
 }
 
 // ---- mutations ----
@@ -715,11 +896,12 @@ type target struct {
 	reqid []byte
 	l     *lsn     // not nil: deliver to this listener instead of the receiver functions
 	sess  *session // the session whose keys verify the listener's reply
+	spao  bool     // SCION listener: with a valid packet authenticator option
 }
 
 func deliver(tags string, hs []*honest, t target, b []byte) bool {
 	if t.l != nil {
-		return len(t.l.srvCase(tags, hs, b, t.sess)) > 0
+		return len(t.l.srvCaseOpt(tags, hs, b, t.sess, t.spao)) > 0
 	}
 	return recv(tags, hs, t.dir, b, t.key, t.reqid)
 }
@@ -958,6 +1140,7 @@ func longSession(r *lib.Rng, n int) {
 		p   *honest
 	}
 	var hist []exch
+	seen := map[string][]int{} // every identifier drawn so far -> the requests that carried it
 	for i := 0; i < n; i++ {
 		setTape() // nothing scripted: the identifier is what newID reads from the random source
 		_, id := nts.NewRequestPacket(ntske.Data{C2sKey: s.c2s, S2cKey: s.s2c, Cookie: s.pool, Algo: s.algo})
@@ -977,8 +1160,10 @@ func longSession(r *lib.Rng, n int) {
 		hist = append(hist, exch{uid: id, p: p})
 		nk := func(k int) string { return lib.V(lib.I(int64(i)), lib.I(int64(k))) }
 		recvK("nts.session", nk(i), "nt,honest,complete,session", []*honest{p}, 1, p.b, s.s2c, id)
+		done := map[int]bool{}
 		for _, d := range []int{1, 2, 64, 128, 256} {
 			if k := i - d; k >= 0 {
+				done[k] = true
 				tg := fmt.Sprintf("nt,history,session,old%d", d)
 				if bytes.Equal(hist[k].uid, id) {
 					tg += ",uidrepeat"
@@ -986,7 +1171,27 @@ func longSession(r *lib.Rng, n int) {
 				recvK("nts.session", nk(k), tg, []*honest{hist[k].p, p}, 1, hist[k].p.b, s.s2c, id)
 			}
 		}
+		// an identifier that was drawn before: the responses to all those requests are replayed
+		for _, k := range seen[string(id)] {
+			if !done[k] {
+				recvK("nts.session", nk(k), "nt,history,session,uidrepeat", []*honest{hist[k].p, p}, 1, hist[k].p.b, s.s2c, id)
+			}
+		}
+		seen[string(id)] = append(seen[string(id)], i)
 	}
+}
+
+// ctrKeys: keys that differ from k in the second (CTR) half only
+func ctrKeys(r *lib.Rng, k []byte) [][]byte {
+	n := len(k) / 2
+	flip := clone(k)
+	flip[n+r.Intn(n)] ^= 1 << r.Intn(8)
+	first := clone(k)
+	first[n] ^= 0x80
+	last := clone(k)
+	last[len(k)-1] ^= 1
+	other := append(clone(k[:n]), r.Bytes(n)...)
+	return [][]byte{flip, first, last, other}
 }
 
 func wrongKeys(r *lib.Rng, h *honest, t target) {
@@ -995,6 +1200,17 @@ func wrongKeys(r *lib.Rng, h *honest, t target) {
 		t2 := t
 		t2.key = k
 		deliver("nt,wrongkey", hs, t2, h.b)
+	}
+	// keys that differ in the second half only: AES-SIV does not use that half when
+	// the plaintext is empty (requests), so those verify; with a plaintext (responses) they do not
+	tg := "nt,wrongkey,ctrhalf,nonempty"
+	if len(h.pt) == 0 {
+		tg = "nt,wrongkey,ctrhalf,emptypt"
+	}
+	for _, k := range ctrKeys(r, t.key) {
+		t2 := t
+		t2.key = k
+		deliver(tg, hs, t2, h.b)
 	}
 }
 
@@ -1153,7 +1369,11 @@ func encodeBoundaries(r *lib.Rng, n int) {
 		if r.Intn(20) == 0 {
 			hdrLen = lib.Pick(r, 0, 47, 49, 76)
 		}
-		out, fields, pos, ct := encodeCase("boundary", r.Bytes(hdrLen), r.Bytes(uidLen), cs, phs, key, pt, r.Bytes(16), r.Bool())
+		pk := 0
+		if len(pt) > 0 {
+			pk = 2
+		}
+		out, fields, pos, ct := encodeCase("boundary", r.Bytes(hdrLen), r.Bytes(uidLen), cs, phs, key, pt, r.Bytes(16), r.Bool(), pk, "")
 		if out != nil && ct != nil && len(fields) > 0 && len(out) >= pos+24+len(ct) {
 			// whatever the encoder emits without truncation must be accepted under its key
 			h := &honest{b: out, pos: pos, nonce: out[pos+8 : pos+24], ct: ct, key: key, dir: 0, uid: nil, fields: fields}
@@ -1183,9 +1403,21 @@ func encodeBoundaries(r *lib.Rng, n int) {
 			p := nts.NewResponsePacket(cs, r.Bytes(32), uid)
 			pt = p.Auth.PlainText
 		}()
-		w.Case("nts.newresp", "boundary", lib.V(BL(cs), lib.B(uid)), lib.V(lib.I(int64(code)), lib.B(pt)))
-		setTape(r.Bytes(32))
-		pk, _ := nts.NewRequestPacket(ntske.Data{Cookie: cs, C2sKey: r.Bytes(32)})
+		if code != 0 {
+			// NewResponsePacket panicked (cookies that do not fit its buffer): nothing to encode;
+			// correspondence with the model only
+			w.Case("nts.newresp", "boundary,panic", lib.V(BL(cs), lib.B(uid)), lib.V(lib.I(int64(code)), lib.B(pt)))
+		} else {
+			k := 2
+			if sameShape(cs) {
+				k = 1
+			}
+			encodeCase("boundary,newresp", genHdr(r), uid, nil, nil, r.Bytes(32), pt, r.Bytes(16), false, k, lib.L(BL(cs), lib.B(uid)))
+		}
+		id := r.Bytes(32)
+		setTape(id)
+		c2s := r.Bytes(32)
+		pk, _ := nts.NewRequestPacket(ntske.Data{Cookie: cs, C2sKey: c2s})
 		setTape()
 		var c1, p1 [][]byte
 		for _, c := range pk.Cookies {
@@ -1194,7 +1426,7 @@ func encodeBoundaries(r *lib.Rng, n int) {
 		for _, c := range pk.CookiePlaceholders {
 			p1 = append(p1, c.Cookie)
 		}
-		w.Case("nts.newreq", "boundary", lib.V(BL(cs)), lib.V("0", BL(c1), BL(p1)))
+		encodeCase("boundary,newreq", genHdr(r), id, c1, p1, c2s, nil, r.Bytes(16), false, 0, lib.L(BL(cs)))
 	}
 }
 
@@ -1241,7 +1473,7 @@ func replay(path string) {
 		case "nts.session":
 			recvK("nts.session", lib.V(lib.I(a[5].I()), lib.I(a[6].I())), c[1], parseHonests(a[0]), 1, a[1].B(), a[2].B(), a[3].B())
 		case "nts.encode":
-			encodeCase(c[1], a[0].B(), a[1].B(), a[2].BL(), a[3].BL(), a[4].B(), a[5].B(), a[6].B(), false)
+			encodeCase(c[1], a[0].B(), a[1].B(), a[2].BL(), a[3].BL(), a[4].B(), a[5].B(), a[6].B(), false, int(a[8].I()), rawVal(c[2], 9))
 		case "nts.newresp":
 			code, pt := 0, []byte(nil)
 			func() {
@@ -1254,25 +1486,17 @@ func replay(path string) {
 				pt = p.Auth.PlainText
 			}()
 			w.Case("nts.newresp", c[1], c[2], lib.V(lib.I(int64(code)), lib.B(pt)))
-		case "nts.newreq":
-			setTape(make([]byte, 32))
-			pk, _ := nts.NewRequestPacket(ntske.Data{Cookie: a[0].BL()})
-			setTape()
-			var c1, p1 [][]byte
-			for _, x := range pk.Cookies {
-				c1 = append(c1, x.Cookie)
-			}
-			for _, x := range pk.CookiePlaceholders {
-				p1 = append(p1, x.Cookie)
-			}
-			w.Case("nts.newreq", c[1], c[2], lib.V("0", BL(c1), BL(p1)))
 		case "ck.seal":
 			cookieSealCase(c[1], uint16(a[0].I()), a[1].B(), a[2].B(), a[3].B(), int(a[4].I()), a[5].B())
 		case "ck.open":
 			sc := &sealedCookie{cb: a[0].B(), master: a[1].B(), algo: uint16(a[2].I()), s2c: a[3].B(), c2s: a[4].B()}
 			cookieOpen(c[1], sc, a[5].B(), a[6].B())
 		case "ck.tlv":
-			cookieTLV(c[1], a[0].B())
+			if a[0].I() == 1 {
+				plainTLV(c[1], a[1].B())
+			} else {
+				cookieTLV(c[1], a[1].B())
+			}
 		case "ck.hist":
 			var reqs []openReq
 			for _, it := range a[0].l {
@@ -1289,6 +1513,16 @@ func replay(path string) {
 }
 
 func main() {
+	// the DRKey fetcher of /repo reads USE_MOCK_KEYS in a package init: start over with it set
+	if os.Getenv("USE_MOCK_KEYS") != "true" {
+		exe, err := os.Executable()
+		if err != nil {
+			panic(err)
+		}
+		if err := syscall.Exec(exe, os.Args, append(os.Environ(), "USE_MOCK_KEYS=true")); err != nil {
+			panic(err)
+		}
+	}
 	a := lib.ParseArgs()
 	crand.Reader = tape
 	w = lib.NewWriter(a.Out)
@@ -1360,10 +1594,12 @@ func main() {
 		encodeBoundaries(r, 3000)
 		decodeFuzz(r, 6000)
 		tlvFuzz(r, 6000)
+		plainFuzz(r, 6000)
 	} else {
 		encodeBoundaries(r, 400)
 		decodeFuzz(r, 800)
 		tlvFuzz(r, 1000)
+		plainFuzz(r, 1000)
 	}
 	ne := 3
 	if thorough {
